@@ -72,8 +72,8 @@ PROPS = {
     "C04": shr([("sh-multi", 300, 6000), ("sh-acquire", 150, 3000), ("sh-general", 100, 2000), ("sh-reconf", 150, 3000), ("rt-shared", 12, 160), ("lease", 1, 1)],
                r"^(value:.*|unexpected:.*|missing:.*|not-enabled:.*|sample:capacity|unknown:.*|hang|lease.*)$",
                "Proof: a grant is counted until exactly issue time + lease time whatever the call latency (after the repair of D6); in the composition of N instances with the lease store every count is covered by a store lease of the same instance that ends no earlier; hence no partition is counted by two instances at once — for all interleavings, latencies, grant instants inside the call, faults, reconfigurations. The store's lease semantics are an explicit assumption (Model/Store.v). The sum bound follows from exclusivity + C06 and is additionally checked on every recorded multi-instance history."),
-    "C09": shr([("sh-acquire", 300, 6000), ("sh-multi", 200, 4000), ("sh-general", 100, 2000)],
-               r"^(value:.*|unexpected:.*|missing:.*|not-enabled:.*|sample:capacity|unknown:.*|hang)$",
+    "C09": shr([("sh-acquire", 300, 6000), ("sh-multi", 200, 4000), ("sh-general", 100, 2000), ("lease", 1, 1)],
+               r"^(value:.*|unexpected:.*|missing:.*|not-enabled:.*|sample:capacity|unknown:.*|hang|lease.*)$",
                "Proof (partial): faults are ordinary labels, so all invariants of C04/C06/C07 hold under any fault sequence; a lease call of any outcome returns the loop to its top, where a request is enabled whenever demand exceeds the count; a failed call changes nothing; the store grants as soon as the previous lease ran out (dead peers free their partitions by themselves). The numeric time bound involves the loop's random sleeps, which the model abstracts; it is decided on recorded histories by the monitor."),
     "C18": dict(engine="lease", test="TestLease", replay_mode="lreplay", needs_azblob=True,
                 families=[("lease", 1, 1)], cone=r".*",
